@@ -4,6 +4,7 @@ CONSTANTS
   Outsider = "x"
   Dense = FALSE
   KeepStatus = FALSE
+  RecheckAtApply = TRUE
   CountAll = FALSE
 POSTCONDITION Done
 CHECK_DEADLOCK FALSE
